@@ -130,6 +130,14 @@ CHECKS = [
            "agrees with the memo.",
       note="48-bit content digests (bytes, dtype, shape, index/columns; grid cell values); layouts a function rejects are not calls",
       technique="TLA+ frame/determinism spec + TLC trace validation of recorded call events"),
+ dict(property_id="C05", category="other", design_ref="3.5",
+      text="A specification cannot observe a memory error; KernelCalls.tla contributes (a) the exhaustive catalogue of boundary-shape call classes "
+           "(13,482: every entry point reaching a kernel x lengths 0,1,2,3,5 x value classes x options beyond their range), enumerated by TLC, and (b) "
+           "a ghost index model of the kernels with shape-dependent buffer arithmetic (NoOOB invariant; the pre-repair models are shown unsafe exactly "
+           "on the classes the sanitizer flagged). Every class is executed through the public API in an ASan+UBSan build of the working tree; a "
+           "sanitizer report, signal or hang is a violation.",
+      note="sanitizer build is the observation channel; UB not instrumented by ASan/UBSan is not observed",
+      technique="TLA+ call-space catalogue + ghost index model (TLC) bound to sanitizer verdicts of the rebuilt kernels"),
 ]
 
 _PENDING = "check not built yet in this round; see DESIGN.md section 3 for the planned specification"
